@@ -489,7 +489,9 @@ func (w *qWorld) advance(op QOp, snap Snap) {
 	default:
 		target = now + int64(ms(op.Ms))
 	}
-	if target > now {
+	// the clock of a case stays within ten years of its start: a lease or a delay of centuries is
+	// something to be honoured, not something the clock walks to (64-bit nanosecond clocks end in 2262)
+	if target > now && target-now < int64(10*365*24*time.Hour) {
 		w.clk.set(target)
 	}
 }
